@@ -6,6 +6,7 @@ import (
 
 	"voicheck/econst"
 	"voicheck/edt"
+	"voicheck/elin"
 	"voicheck/erange"
 )
 
@@ -371,8 +372,8 @@ func normComm(s string) string {
 func init() {
 	Registry["C07"] = func(c *Ctx) {
 		run := c.Run
-		run.Explanation = "E-DT/E-SEQ + E-LEN + E-CONST: the checked entry point errs exactly for a wrong length or (variable base) an all-zero result; scalar decoding is SetBits(clamp(copy)) with the clamp compared on all 256 byte values (bytes 0 and 31 only), inputs never written; the fixed-base routine uses the Edwards base-point table with the same clamped scalar and maps (Z+Y)/(Z−Y); the Montgomery ladder starts from x0 = (1:0), x1 = (u:1), runs from bit 254 to 0, each step = swap(x0, x1, bit[i+1]^bit[i]) then the differential add-and-double of (x0, x1) with the affine u, finishes with swap by bit 0 and returns U/W of x0; the ladder step equals the RFC 7748 formulas as a term over uninterpreted field operations (modulo commutativity); conditional swap exchanges both coordinates under one choice; conversions from Ed25519 keys (clamp(SHA-512(seed)[0:32]); decode failure ⇔ rejection); constants by value; interval analysis (E-RANGE stage A, see C04) of every field primitive the ladder uses, incl. Mul121666, in the portable back ends."
-		run.NotDecided = []string{"numeric equality with RFC 7748 outputs (field arithmetic: ranges under C04, packing under LIN rules when wired)", "that u-coordinate decoding masks bit 255 and reduces mod p (internal/field.SetBytes: LIN rules)", "Diffie-Hellman symmetry as an algebraic fact"}
+		run.Explanation = "E-DT/E-SEQ + E-LEN + E-CONST: the checked entry point errs exactly for a wrong length or (variable base) an all-zero result; scalar decoding is SetBits(clamp(copy)) with the clamp compared on all 256 byte values (bytes 0 and 31 only), inputs never written; the fixed-base routine uses the Edwards base-point table with the same clamped scalar and maps (Z+Y)/(Z−Y); the Montgomery ladder starts from x0 = (1:0), x1 = (u:1), runs from bit 254 to 0, each step = swap(x0, x1, bit[i+1]^bit[i]) then the differential add-and-double of (x0, x1) with the affine u, finishes with swap by bit 0 and returns U/W of x0; the ladder step equals the RFC 7748 formulas as a term over uninterpreted field operations (modulo commutativity); conditional swap exchanges both coordinates under one choice; conversions from Ed25519 keys (clamp(SHA-512(seed)[0:32]); decode failure ⇔ rejection); constants by value; interval analysis (E-RANGE stage A, see C04) of every field primitive the ladder uses, incl. Mul121666, in the portable back ends; field SetBytes/ToBytes as affine identities over the input bits (E-LIN: bit 255 of the u-coordinate is ignored, all other bits enter at their weight, the encoding is the canonical representative)."
+		run.NotDecided = []string{"numeric equality with RFC 7748 outputs (field arithmetic: ranges under C04, packing under LIN rules when wired)", "Diffie-Hellman symmetry as an algebraic fact"}
 		run.Exhaustive = true
 		if !c.Preload(c.Configs()...) {
 			return
@@ -402,6 +403,8 @@ func init() {
 			if id != "amd64" {
 				erange.CheckFieldStageA(run, p, "RANGE-A")
 			}
+			// u-coordinate decoding ignores bit 255 and accepts non-canonical values (reduced mod p by the arithmetic); encoding is canonical
+			elin.CheckField(run, p, "LIN")
 			var names []string
 			for _, n := range econst.Names() {
 				if strings.HasPrefix(n, "primitives/x25519.") || strings.Contains(n, "MONTGOMERY") || strings.Contains(n, "APLUS2") {
